@@ -36,6 +36,7 @@ type Plan struct {
 	Gaps     []int `json:"gaps"`            // ms before each item
 	EndGap   int   `json:"endgap,omitempty"`
 	EndErr   bool  `json:"enderr,omitempty"`
+	Deaf     bool  `json:"deaf,omitempty"` // the source ignores its context and never ends (it keeps answering)
 	Consumer []COp `json:"consumer"`
 }
 
@@ -64,7 +65,11 @@ func genPlan(t *rapid.T) Plan {
 		}
 		p.Consumer = append(p.Consumer, o)
 	}
-	if rapid.IntRange(0, 2).Draw(t, "closeearly") == 0 {
+	p.Deaf = rapid.IntRange(0, 5).Draw(t, "deaf") == 0
+	if p.Deaf {
+		p.EndErr = false
+	}
+	if p.Deaf || rapid.IntRange(0, 2).Draw(t, "closeearly") == 0 {
 		p.Consumer = append(p.Consumer, COp{Op: "close"})
 	} else {
 		p.Consumer = append(p.Consumer, COp{Op: "drain"})
@@ -120,6 +125,9 @@ func script(p Plan, out *vk.Outcome) error {
 	if p.EndErr {
 		src.FinalAt, src.Final = n, E
 	}
+	if p.Deaf {
+		src.Deaf, src.More, src.MoreGap = true, func(pos int) int { return pos + 1 }, 7*time.Millisecond
+	}
 	// BatchFunc predicate: batch k (0-based) is full at Sizes[k % len] items; the harness knows k
 	// because batches are formed sequentially.
 	var proper [][]int // every slice full() said "not full" for
@@ -151,6 +159,19 @@ func script(p Plan, out *vk.Outcome) error {
 	timerBatch, closeWhileHolding, secondWaiter := false, false, false
 	lastCancelled := false
 
+	// closeBounded: Close must return; the source keeps answering, so 10 fake minutes are ample.
+	closeBounded := func() error {
+		done := make(chan struct{})
+		go func() { s.Close(); close(done) }()
+		tm := time.NewTimer(10 * time.Minute)
+		defer tm.Stop()
+		select {
+		case <-done:
+			return nil
+		case <-tm.C:
+			return vk.Violf("close-never-returns", "Close has not returned after 10 minutes of fake time although the source answers every call (deaf=%v)", p.Deaf)
+		}
+	}
 	doNext := func(timeout time.Duration) error {
 		ctx := context.Background()
 		cancel := func() {}
@@ -231,7 +252,7 @@ func script(p Plan, out *vk.Outcome) error {
 		case "sleep":
 			time.Sleep(time.Duration(o.Ms) * time.Millisecond)
 		case "drain":
-			for i := 0; final == nil && i < n+5; i++ {
+			for i := 0; final == nil && i < n+5 && !p.Deaf; i++ {
 				if err := doNext(0); err != nil {
 					return err
 				}
@@ -241,7 +262,9 @@ func script(p Plan, out *vk.Outcome) error {
 			if src.Handed() > delivered {
 				closeWhileHolding = true
 			}
-			s.Close()
+			if err := closeBounded(); err != nil {
+				return err
+			}
 			closed = true
 		}
 	}
@@ -252,7 +275,9 @@ func script(p Plan, out *vk.Outcome) error {
 				closeWhileHolding = true
 			}
 		}
-		s.Close()
+		if err := closeBounded(); err != nil {
+			return err
+		}
 	}
 	// clause 7: Close has returned; the source is closed exactly once
 	if err := src.Ownership(); err != nil {
@@ -284,6 +309,9 @@ func script(p Plan, out *vk.Outcome) error {
 	}
 	if p.Func {
 		out.Label("BatchFunc")
+	}
+	if p.Deaf {
+		out.Label("deaf-endless-source")
 	}
 	if p.FullLat > 0 {
 		out.Label("slow-predicate")
